@@ -92,7 +92,12 @@ func encodeRefBlock(rev int, cols []ref.Column, customFlagAt int) []byte {
 func c18decode(data []byte, rev int, res proto.Results) error {
 	var b proto.Block
 	r := readerOf(data)
-	return safely(func() error { return b.DecodeBlock(r, rev, res) })
+	err := safely(func() error { return b.DecodeBlock(r, rev, res) })
+	if err == nil && !atEOF(r) {
+		// accepted, but part of the block was left unread: it would be taken for the next packet
+		return fmt.Errorf("PANIC: harness: decode succeeded without consuming the whole block")
+	}
+	return err
 }
 
 func TestC18Binding(t *testing.T) {
